@@ -12,6 +12,9 @@ import (
 
 type zzProbe struct{}
 
+// zzBoom makes the receiving node panic (the engine restarts it).
+type zzBoom struct{}
+
 // zzBye is what a stopping child tells its parent from inside its Stopped handler.
 type zzBye struct{ From string }
 
@@ -28,15 +31,16 @@ type zzTree struct {
 	wrongPar bool
 	listed   map[string][]string // Children() as seen by the last probe, by node id
 
-	crashStop string // id of the node whose Stopped handler panics once ("" = none)
-	crashed   bool
-	rechild   string // id of the child that asks its parent for a replacement from inside its Stopped handler
-	asked     bool
-	replaced  map[string]*PID // replacement children by id
-	gen       map[string]int  // incarnations started per id
-	stoppedN  map[string]int  // Stopped deliveries per id
-	bye       bool            // stopping children say goodbye to their parent
-	late      bool            // some node was handed a message after it had handled Stopped
+	crashStop    string // id of the node whose Stopped handler panics once ("" = none)
+	crashed      bool
+	rechild      string // id of the child that asks its parent for a replacement from inside its Stopped handler
+	asked        bool
+	replaced     map[string]*PID // replacement children by id
+	gen          map[string]int  // incarnations started per id
+	stoppedN     map[string]int  // Stopped deliveries per id
+	bye          bool            // stopping children say goodbye to their parent
+	restartStops int             // Stopped deliveries that belong to a restart
+	late         bool            // some node was handed a message after it had handled Stopped
 }
 
 type zzNode struct {
@@ -57,7 +61,7 @@ func (n *zzNode) Receive(c *Context) {
 		} else if n.depth != 0 {
 			t.wrongPar = true
 		}
-		if n.depth < t.D {
+		if n.depth < t.D && t.gen[id] == 1 {
 			for k := 0; k < t.F; k++ {
 				d := n.depth + 1
 				cid := id + "/c/" + string(rune('0'+k))
@@ -66,6 +70,8 @@ func (n *zzNode) Receive(c *Context) {
 				t.kids[id] = append(t.kids[id], pid)
 			}
 		}
+	case zzBoom:
+		panic("zz-boom")
 	case zzBye:
 		// queued while this node may already be shutting down (it waits for its children inside cleanup):
 		// once it has handled Stopped nothing may be delivered to it any more
@@ -80,6 +86,12 @@ func (n *zzNode) Receive(c *Context) {
 			t.replaced[pid.ID] = pid
 		}
 	case Stopped:
+		if t.e.Registry.get(c.PID()) != nil {
+			// Stopped for a failed incarnation that is being restarted: the actor itself does not stop (cleanup
+			// unregisters the actor before it delivers the final Stopped)
+			t.restartStops++
+			break
+		}
 		t.stoppedN[id]++
 		if t.rechild == id && !t.asked {
 			// the stopping child asks for its own replacement and takes its time finishing: the parent may
@@ -125,19 +137,51 @@ func ZZ_C08() {
 	// mode 3 = mode 0 without the third party and without the panicking child (no known finding is reachable):
 	// used by C04 for "nothing is delivered after Stopped" when messages are queued during the shutdown
 	mode := zzrt.Param("mode") // 0 shutdown interleavings, 1 respawn of the root id during shutdown (C10), 2 a stopping child is replaced (Children bookkeeping)
-	root := e.Spawn(func() Receiver { return &zzNode{t: t, depth: 0} }, "root", WithID("r"))
+	// mode 4: the root is spawned WithContext(app context); it may panic once on a user message (and is restarted)
+	// before Children() is probed; the app context may be cancelled before the root is stopped. Neither changes
+	// what a stopping parent owes its descendants.
+	appCtx, appCancel := context.WithCancel(context.Background())
+	budget := 3
+	if mode == 5 {
+		budget = zzrt.Choose(2) // 0 or 1 restarts allowed
+	}
+	root := e.Spawn(func() Receiver { return &zzNode{t: t, depth: 0} }, "root", WithID("r"), WithContext(appCtx), WithMaxRestarts(budget), WithRestartDelay(0))
 	zzrt.Quiesce()
 	zzrt.Assert(len(t.kids[root.ID]) == F, "C08:children-not-spawned")
+	if mode == 4 && zzrt.Choose(2) == 1 {
+		e.Send(root, zzBoom{})
+		zzrt.Quiesce()
+		zzrt.Assert(t.gen[root.ID] == 2, "C08:harness-root-not-restarted")
+		zzrt.Reach("parent-restarted-with-children")
+	}
 	zzrt.Assert(!t.wrongPar, "C08:Parent-does-not-name-the-spawning-actor")
 
 	if mode == 2 {
 		zzC08Replace(t, e, root)
 		return
 	}
+	if mode == 5 {
+		// C06 with children: the root panics until its restart budget is exhausted; the termination must take
+		// every child down (they were spawned by the first incarnation) and unregister everything
+		for i := 0; i <= budget; i++ {
+			e.Send(root, zzBoom{})
+			zzrt.Quiesce()
+		}
+		zzrt.Assert(e.Registry.get(root) == nil, "C06:unregistered-after-max-restarts")
+		for _, k := range t.kids[root.ID] {
+			zzrt.Assert(t.stopped[k.ID] && e.Registry.get(k) == nil, "C06:children-survive-the-termination-of-their-parent")
+		}
+		zzrt.Assert(t.stopped[root.ID], "C06:terminated-actor-not-told-Stopped")
+		zzrt.Assert(!t.early, "C08:parent-handled-Stopped-before-a-descendant-was-stopped")
+		if budget > 0 {
+			zzrt.Reach("terminated-after-a-restart")
+		}
+		return
+	}
 
 	// phase 1: a child stops on its own
 	victim := -1
-	if zzrt.Choose(2) == 1 {
+	if mode != 4 && zzrt.Choose(2) == 1 {
 		victim = zzrt.Choose(F)
 		ctx := e.Poison(t.kids[root.ID][victim])
 		<-ctx.Done()
@@ -196,6 +240,10 @@ func ZZ_C08() {
 				return &zzLeaf{}
 			}, "root", WithID("r"))
 		})
+	}
+	if mode == 4 && zzrt.Choose(2) == 1 {
+		appCancel()
+		zzrt.Reach("app-context-cancelled-before-shutdown")
 	}
 	var ctx context.Context
 	if zzrt.Choose(2) == 0 {
